@@ -168,6 +168,58 @@ def e2e(run, model):
     return nbad
 
 
+def peer(run, model):
+    """scripted peer: hostile Block1 / Block2 sequences into the real server / client against
+    the lg_srcv table model (blk_srv_recv) and the ETag + reassembly model (blk_cli_recv)"""
+    drv = vlib.build_driver("h_block_e2e", ["h_block_e2e.c"], wraps=E2E_WRAPS)
+    r = tie.rng_for(run, "c09-peer")
+    quick = run.tier == "quick"
+    cases = []
+    for l in vlib.read_corpus("C09"):
+        if l.startswith("peer "):
+            t = l.split()
+            cases.append((l, "blkpeer %s %s %s %s %s" % (t[1], t[2], t[3], "0" if t[4] == "7" else t[4],
+                                                        " ".join(t[6:]))))
+    cases += gen_block.peer_cases(r, 700 if quick else 15000, 0.0)
+    cases += gen_block.peer_cases(r, 1300 if quick else 30000, 0.35)
+    cases += gen_block.peer_cases(r, 500 if quick else 10000, 0.7)
+    mo, _ = vlib.run_lines_robust(model, [m for d, m in cases], timeout=1500)
+    co, crashes = vlib.run_lines_robust(drv, [d for d, m in cases], timeout=1500)
+    run.cov["peer_driver_crashes"] = len(crashes)
+    nbad = 0
+    for (d, m), a, b in zip(cases, mo, co):
+        aa, bb = a.split(), b.split()
+        run.count(d, len(bb) >= 5)
+        run.hist("peer_dir", d.split()[1])
+        for x in bb:
+            run.hist("peer_outcome", x[0])
+        # "D?": the model delivered storage that was never written (a hole that the inconsistent
+        # peer left): the content cannot be compared, the decision can
+        same = len(aa) == len(bb) and all(x == y or (x == "D?" and y.startswith("D:")) for x, y in zip(aa, bb))
+        if not same:
+            nbad += 1
+            if nbad <= 3:
+                what = ("implementation crashes (%s)" % b if b.startswith("CRASH") else
+                        "scripted peer: the receiver's decisions / delivered bytes differ from the model")
+                items = d.split()[6:]
+
+                def still(pref, cand):
+                    if not cand:
+                        return False
+                    t = d.split()
+                    d2 = " ".join(t[:6] + [c[0] for c in cand])
+                    m2 = " ".join(m.split()[:5] + [c[0] for c in cand])
+                    x, _ = vlib.run_lines_robust(model, [m2])
+                    y, _ = vlib.run_lines_robust(drv, [d2])
+                    return x[0] != y[0] and "D?" not in x[0]
+                ops = tie.shrink_ops(None, [[t] for t in items], still, max_steps=120)
+                small = " ".join(d.split()[:6] + [o[0] for o in ops]) if ops else d
+                run.violation(what, "case: %s\nmodel case: %s\nmodel: %s\nimpl : %s\n(shrunk: %s)\n" %
+                              (d, m, a, b, small), tag="peer%d" % nbad, no_input=True)
+    run.cov["peer_cases"] = len(cases)
+    run.cov["peer_disagreements"] = nbad
+
+
 def main(run):
     run.cov["trusted_base"] = vlib.TRUSTED_COMMON + [
         "model: Block/BlockOpt.v Block/Slices.v Block/RecBlocks.v (transcriptions of the option "
@@ -181,3 +233,4 @@ def main(run):
     drv = vlib.build_driver("h_block", ["h_block.c"])
     leaf(run, model, drv)
     e2e(run, model)
+    peer(run, model)
